@@ -1038,6 +1038,13 @@ func (vc *VC) execRange(s *State, x *ast.RangeStmt, label string) {
 		}
 		vc.assumeInvariants(s, x, ls, path, entry)
 		vc.cover(s, "loop"+path, "loop head reachable with invariant", x.Pos())
+		{
+			// a later iteration must be reachable too: an invariant that (with stale ghost state, say) pins the index to
+			// 0 would make every step obligation speak about the first iteration only
+			later := s.clone()
+			later.assume(Gt(later.ghost[iName], IntLit(0)))
+			vc.cover(later, "loop"+path+":later", "loop head reachable with invariant after the first iteration", x.Pos())
+		}
 		i := s.ghost[iName]
 		exit := s.clone()
 		exit.assume(Not(Lt(i, n)))
